@@ -69,9 +69,13 @@ where
     block.operators.setup(metadata);
     let structure = block.operators.structure();
 
+    #[cfg(feature = "verif")]
+    let verif_token = crate::verif::worker_spawn(coord);
     let join_handle = std::thread::Builder::new()
         .name(format!("block-{}", block.id))
         .spawn(move || {
+            #[cfg(feature = "verif")]
+            crate::verif::set_worker_token(verif_token);
             // remember in the thread-local the coordinate of this block
             COORD.with(|x| *x.borrow_mut() = Some(coord));
             do_work(block, coord)
